@@ -104,7 +104,13 @@ def _shard_worker(pid: str, tier: str, shard: int, seed_base: int) -> dict:
         if state["fail_t"] is None and now - t0 > wall:
             state["skipped"] += 1
             return  # wall budget hit: inconclusive, not a violation
-        case = mod.generate(Draw(data), tier)
+        try:
+            case = mod.generate(Draw(data), tier)
+        except Exception as e:  # noqa: BLE001
+            if type(e).__module__.startswith("hypothesis"):
+                raise  # StopTest / Frozen etc. belong to the engine
+            state["harness"] = "generator raised:\n" + traceback.format_exc()[-1500:]
+            return
         res = run_case(mod, case, ctx)
         if res.harness is not None:
             state["harness"] = res.harness + "\ncase: " + json.dumps(case, default=repr)[:2000]
@@ -142,7 +148,7 @@ def _shard_worker(pid: str, tier: str, shard: int, seed_base: int) -> dict:
         pass
     except BaseException as e:  # noqa: BLE001  Flaky etc. after the shrink budget ran out
         if state["failure"] is None and state["harness"] is None:
-            state["harness"] = "hypothesis raised without a recorded failure:\n" + traceback.format_exc()
+            state["harness"] = "hypothesis raised without a recorded failure:\n" + traceback.format_exc()[:1500]
         del e
     return {
         "shard": shard,
@@ -320,8 +326,13 @@ def run_property(pid: str, tier: str) -> int:
         floor_warnings=floor_warnings,
         harness=bool(harness),
     )
+    seen_h = set()
     for h in harness:
-        print("HARNESS ERROR\n" + h, file=sys.stderr)
+        key = h.split("\n", 1)[-1][:300]
+        if key in seen_h:
+            continue
+        seen_h.add(key)
+        print("HARNESS ERROR\n" + h[:3000], file=sys.stderr)
     print(
         f"{pid} {tier}: evaluations={total['evaluations']} distinct_nontrivial={len(total['nontrivial'])} "
         f"excluded_known={sum(total['excluded'].values())} violations={len(by_clause)} wall={wall:.1f}s"
